@@ -164,9 +164,8 @@ Proof.
   - intros k N. apply (run_prog_unwritten (t2_ctx mp st) k mop_prog_t2 (options d, 0) N).
 Qed.
 
-(** MOP(21) carries the linear solver choice (0 for TOUGH2_MP) whenever the program's last word on option 21
-    is what the source says; stated for the regenerated program by evaluation on symbolic digits is not
-    possible, so this is the general frame + the digit lemma *)
+(** option digits stay digits: every constant the regenerated program stores is a digit, and so is the solver type
+    derived from LINEQ *)
 Theorem to_tough2_digits_lemma mp d d' : convert_to_TOUGH2 mp d = Ok d' -> Forall digit (options d) -> Forall digit (options d').
 Proof.
   intros H D. destruct (to_tough2_inv _ _ _ H) as (st & hg & Hs & _ & E). cbv zeta in E. subst d'. fld.
